@@ -377,7 +377,10 @@ class _Iter:
 
     def _close(self):
         self.prog.rec["close_calls"] += 1
-        if self.prog.spec.get("close_raises"):
+        cr = self.prog.spec.get("close_raises")
+        if cr:
+            if isinstance(cr, str):
+                raise make_failure(cr, "in the iterable's close()")     # e.g. an OSError kind: a spool file that is already gone
             raise RuntimeError("scripted failure in the iterable's close()")
 
 
